@@ -205,6 +205,24 @@ pub fn check_pair(bufs: &mut Bufs, h: &[u8], n: &[u8]) -> CaseResult {
         rep.class("joined-with-literal-format-strings");
     }
 
+    // operands that are owned strings the library made itself (from_format of the same text), used through Deref
+    if h.len() <= 48 && n.len() <= 48 {
+        if let (Ok(hstr), Ok(nstr)) = (core::str::from_utf8(h), core::str::from_utf8(n)) {
+            let ho = crate::runner::no_panic("UnixString::from_format", || UnixString::from_format(format_args!("{hstr}")))?;
+            let no = crate::runner::no_panic("UnixString::from_format", || UnixString::from_format(format_args!("{nstr}")))?;
+            let got = crate::runner::no_panic("UnixStr::find", || ho.find(&no))?;
+            ensure!(got == exp, "UnixStr::find|wrong-index|operands made by from_format", "find({:?},{:?}) on operands made by from_format = {:?}, expected {:?}", escape(h), escape(n), got, exp);
+            let got = crate::runner::no_panic("UnixStr::ends_with", || ho.ends_with(&no))?;
+            ensure!(got == exp_e, "UnixStr::ends_with|wrong-answer|operands made by from_format", "ends_with({:?},{:?}) on operands made by from_format = {}, expected {}", escape(h), escape(n), got, exp_e);
+            let got = crate::runner::no_panic("UnixStr::find", || hs.find(&no))?;
+            ensure!(got == exp, "UnixStr::find|wrong-index|needle made by from_format", "find({:?},{:?}) with the needle made by from_format = {:?}, expected {:?}", escape(h), escape(n), got, exp);
+            let got = crate::runner::no_panic("UnixStr::find", || ho.find(ns))?;
+            ensure!(got == exp, "UnixStr::find|wrong-index|haystack made by from_format", "find({:?},{:?}) with the haystack made by from_format = {:?}, expected {:?}", escape(h), escape(n), got, exp);
+            rep.class("operands-made-by-from_format");
+            rep.class_if(h.is_empty() || n.is_empty(), "empty-operand-made-by-from_format");
+        }
+    }
+
     rep.nontrivial_if((!n.is_empty() && h.len() >= n.len()) || h.contains(&b'/') || n.contains(&b'/'));
     rep.class_if(n.is_empty(), "empty-needle");
     rep.class_if(h == n && h.len() >= 7, "equal-operands-of-7-bytes-or-more");
